@@ -1163,6 +1163,13 @@ class Interp:
             return r if isinstance(op, ast.Eq) else (not r)
         if _opaque(a) or _opaque(b):
             return self.fresh("cmp")
+        if isinstance(a, _DictView) or isinstance(b, _DictView):
+            # keys()/items() views compare as sets
+            sa = set(a.items()) if isinstance(a, _DictView) else (set(a) if isinstance(a, (set, frozenset)) else None)
+            sb = set(b.items()) if isinstance(b, _DictView) else (set(b) if isinstance(b, (set, frozenset)) else None)
+            if sa is None or sb is None:
+                raise Imprecise(f"comparison of a dict view with {type(a).__name__ if sa is None else type(b).__name__}")
+            a, b = sa, sb
         try:
             return {ast.Lt: operator.lt, ast.LtE: operator.le, ast.Gt: operator.gt, ast.GtE: operator.ge}[type(op)](a, b)
         except TypeError as ex:
@@ -1660,6 +1667,19 @@ class Interp:
                 raise PyRaise(ExcVal(type(ex).__name__, (str(ex),)))
         if last in ("OrderedDict",) and not args:
             return {}
+        if name in ("functools.reduce", "reduce") and len(args) >= 2:
+            items = list(self.iterate(args[1]))
+            if len(args) >= 3:
+                acc = args[2]
+            elif items:
+                acc, items = items[0], items[1:]
+            else:
+                raise PyRaise(ExcVal("TypeError", ("reduce() of empty iterable with no initial value",)))
+            for x in items:
+                acc = self.call(args[0], [acc, x], {})
+            return acc
+        if name.startswith("operator.") and last in ("or_", "and_", "xor") and len(args) == 2 and all(isinstance(x, (set, frozenset)) for x in args):
+            return {"or_": operator.or_, "and_": operator.and_, "xor": operator.xor}[last](set(args[0]), set(args[1]))
         if name in ("itertools.chain", "chain"):
             out = []
             for a in args:
@@ -1849,6 +1869,9 @@ class Interp:
                 raise PyRaise(ExcVal("ValueError"))
             if name == "count":
                 return sum(1 for x in recv if self._eq(x, args[0]))
+            if name == "reverse":
+                recv.reverse()
+                return None
             if name == "sort":
                 key = kwargs.get("key")
                 rev = bool(kwargs.get("reverse", False))
